@@ -48,7 +48,9 @@ func verifLen() (uint, error) {
 		return 0, errors.New("stub")
 	}
 	l := verifrt.Choice("len", r) + 1
-	verifBodies = append(verifBodies, verifBody{at: len(verifData) - r, l: l})
+	if verifData != nil {
+		verifBodies = append(verifBodies, verifBody{at: len(verifData) - r, l: l})
+	}
 	return uint(l), nil
 }
 
